@@ -710,10 +710,12 @@ def run_models(ctx, info, exe, sf, sig, nmodels, sleep, thorough, stats):
                     if not thorough and rng.random() < 0.45:
                         continue
                     sc.random_state(rng, 0)
-                    for _ in range(rng.randint(0, 3)):
-                        h.cmd("call 0 step")
+                    pre = [h.cmd("call 0 step") for _ in range(rng.randint(0, 3))]
                     if entry == "inverse":
-                        h.cmd("call 0 forward")
+                        pre.append(h.cmd("call 0 forward"))
+                    if any(r != "ok" for r in pre):
+                        stats["engine_errors_in_setup"] = stats.get("engine_errors_in_setup", 0) + 1
+                        continue      # e.g. RK4 + discrete inverse: mj_step itself raises an error for this model
                     f = differential(sc, rng, entry, rec, sig, nsteps=(3 if entry == "step" else 1))
                     k = "%s:%s:%s" % ("sleep" if sleeping else "nosleep", entry, rec)
                     stats["diff"][k] = stats["diff"].get(k, 0) + 1
@@ -761,6 +763,7 @@ def run(ctx):
     ctx.extra["differentials"] = stats["diff"]
     ctx.extra["models_not_compiled"] = stats.get("not_compiled", 0)
     ctx.extra["scenario_errors"] = stats.get("scenario_errors", [])[:5]
+    ctx.extra["engine_errors_in_setup"] = stats.get("engine_errors_in_setup", 0)
     ctx.oblige("at most a few scenarios abandoned on unexpected harness answers", "correspondence",
                len(stats.get("scenario_errors", [])) <= 2 + (stats.get("stage_validations", 0) // 200), str(stats.get("scenario_errors", [])[:3]))
     ctx.extra["conditional_fields"] = info.cond
